@@ -12,6 +12,8 @@ pub fn check(tier: Tier) -> Check {
         0,
         tier.pick(40, 600),
     )];
+    let mut parts = parts;
+    parts.push(Part::new("C09/qos2", json!({"depth": tier.pick(5, 7), "flavour": 1}), 0, tier.pick(40, 300)));
     Check {
         also_rel: false,
         property: "C09",
@@ -29,7 +31,7 @@ pub fn scenario(name: &str, params: &Value) -> Scenario {
     Box::new(move |chz, ex| {
         let mut sys = Sys::new("C09", &name, chz);
         sys.params = params.clone();
-        sys.bring_up(vec![]);
+        sys.bring_up_fl(vec![], params["flavour"].as_u64().unwrap_or(0));
         sys.apply(Ev::Start(OpSpec::Subscribe(SubscribeSpec::simple("s/a"))));
         if sys.dead {
             return sys.report(ex, &[]);
